@@ -135,12 +135,14 @@ theorem namesOk_of_plain (params : List (Option Ecal.Parse.Node)) (h : PlainPara
 /-- A call changes no existing scope while it builds its frame: `this`, `super` and the parameters are written
     into the fresh, still parentless root scope, so they SHADOW and never overwrite variables of the same
     names in the enclosing frames (the declaration scope is linked only afterwards).  Holds for every
-    outcome, also when a default raises an error; hypothesis `hev`: evaluating a default expression itself
-    leaves scope `t` and the unreachable new frame alone (what the defaults and later the body assign is
-    covered by `assign_nearest_or_local`). -/
+    outcome, also when a default raises an error.  Hypothesis `hev`: evaluating the default expressions OF THIS
+    PARAMETER LIST preserves the invariant of the frame under construction (frame in bounds and parentless, only
+    allowed names in it, scope `t` as before) — it may do anything else; `_noDefaults` below needs no such
+    hypothesis, and the examples instantiate both forms on the real evaluator (`ev = eval f callerScope`). -/
 theorem call_does_not_write_enclosing_frames (ev : Ecal.Parse.Node → M Val) (fr : FuncRec)
     (params : List (Option Ecal.Parse.Node)) (args : List Val) (st st' : St) (r : Except Sig Nat) (t : Nat)
-    (ht : t < st.scopes.size) (hpl : PlainParams params) (hev : DefaultKeeps ev st.scopes.size t)
+    (ht : t < st.scopes.size) (hpl : PlainParams params)
+    (hev : DefaultPreserves ev params (FrameInv st st.scopes.size t (FrameNames params)))
     (h : runM (buildFrame ev fr params args) st = (r, st')) :
     st'.scope t = st.scope t :=
   (buildFrame_spec ev fr params args st st' r t (FrameNames params) ht (Or.inl rfl) (Or.inr (Or.inl rfl))
@@ -151,7 +153,8 @@ theorem call_does_not_write_enclosing_frames (ev : Ecal.Parse.Node → M Val) (f
     `this`, `super` and the parameters — no local of an earlier call of the same function survives. -/
 theorem call_fresh_locals (ev : Ecal.Parse.Node → M Val) (fr : FuncRec)
     (params : List (Option Ecal.Parse.Node)) (args : List Val) (st st' : St) (fvs t : Nat)
-    (ht : t < st.scopes.size) (hpl : PlainParams params) (hev : DefaultKeeps ev st.scopes.size t)
+    (ht : t < st.scopes.size) (hpl : PlainParams params)
+    (hev : DefaultPreserves ev params (FrameInv st st.scopes.size t (FrameNames params)))
     (h : runM (buildFrame ev fr params args) st = (.ok fvs, st')) :
     fvs = st.scopes.size ∧ fvs ≠ t ∧ fvs < st'.scopes.size ∧ ∀ w, st'.defines fvs w = true → FrameNames params w := by
   have := (buildFrame_spec ev fr params args st st' (.ok fvs) t (FrameNames params) ht (Or.inl rfl) (Or.inr (Or.inl rfl))
@@ -163,12 +166,90 @@ theorem call_fresh_locals (ev : Ecal.Parse.Node → M Val) (fr : FuncRec)
     final state) — the caller's scope is not on it unless the declaration scope's own chain contains it. -/
 theorem closure_sees_definition_scope (ev : Ecal.Parse.Node → M Val) (fr : FuncRec)
     (params : List (Option Ecal.Parse.Node)) (args : List Val) (st st' : St) (fvs t f : Nat)
-    (ht : t < st.scopes.size) (hpl : PlainParams params) (hev : DefaultKeeps ev st.scopes.size t)
+    (ht : t < st.scopes.size) (hpl : PlainParams params)
+    (hev : DefaultPreserves ev params (FrameInv st st.scopes.size t (FrameNames params)))
     (h : runM (buildFrame ev fr params args) st = (.ok fvs, st')) :
     (st'.scope fvs).parent = some fr.declScope ∧ st'.chain (f + 1) fvs = fvs :: st'.chain f fr.declScope := by
   have := (buildFrame_spec ev fr params args st st' (.ok fvs) t (FrameNames params) ht (Or.inl rfl) (Or.inr (Or.inl rfl))
     (namesOk_of_plain params hpl) hev h).2 fvs rfl
   exact ⟨this.linked, by simp [St.chain, this.linked]⟩
+
+/-- Parameter lists without defaults need no hypothesis about the evaluator at all: the default evaluator is never
+    called (`buildFrame_noPreset`), so the three theorems hold for EVERY `ev`, in particular for the one
+    `runFunction` passes. -/
+theorem call_frames_noDefaults (ev : Ecal.Parse.Node → M Val) (fr : FuncRec)
+    (params : List (Option Ecal.Parse.Node)) (args : List Val) (st st' : St) (r : Except Sig Nat) (t : Nat)
+    (ht : t < st.scopes.size) (hpl : PlainParams params) (hnp : NoPreset params)
+    (h : runM (buildFrame ev fr params args) st = (r, st')) :
+    st'.scope t = st.scope t ∧
+    ∀ fvs f, r = .ok fvs →
+      (fvs = st.scopes.size ∧ fvs ≠ t ∧ fvs < st'.scopes.size ∧ ∀ w, st'.defines fvs w = true → FrameNames params w) ∧
+      ((st'.scope fvs).parent = some fr.declScope ∧ st'.chain (f + 1) fvs = fvs :: st'.chain f fr.declScope) := by
+  rw [buildFrame_noPreset ev (fun _ => pure Val.null) fr params args hnp] at h
+  have hev := defaultPreserves_const params (FrameInv st st.scopes.size t (FrameNames params))
+  refine ⟨call_does_not_write_enclosing_frames _ fr params args st st' r t ht hpl hev h, ?_⟩
+  intro fvs f hr
+  subst hr
+  exact ⟨call_fresh_locals _ fr params args st st' fvs t ht hpl hev h,
+    closure_sees_definition_scope _ fr params args st st' fvs t f ht hpl hev h⟩
+
+/-! non-vacuity ON THE EVALUATOR: the default evaluator is the one `runFunction` passes (`eval fuel callerScope`),
+    the caller scope is the block scope 1 of `exSt`, the declaration scope the global scope 0 -/
+def nd (name : String) (val : List Nat) (children : List (Option Ecal.Parse.Node)) : Ecal.Parse.Node :=
+  Ecal.Parse.Node.mk name (some { id := 0, pos := 0, val := val, identifier := true, allowEscapes := false, prefixNl := 0, line := 1, col := 1 })
+    0 default default children []
+/-- parameter `a` -/
+def exParamA : Ecal.Parse.Node := nd "identifier" [97] []
+/-- parameter `b=5` -/
+def exParamB5 : Ecal.Parse.Node := nd "preset" [] [some (nd "identifier" [98] []), some (nd "number" [53] [])]
+
+theorem exParams_plain : PlainParams [some exParamA, some exParamB5] := by
+  intro p nm hp hn
+  simp only [List.mem_cons, Option.some.injEq, List.mem_nil_iff, or_false] at hp
+  rcases hp with e | e <;> subst e <;> (simp [nodeParamName, exParamA, exParamB5, nd, Ecal.Parse.Node.name, Ecal.Parse.Node.tok, Ecal.Parse.Node.children] at hn; subst hn; unfold PlainName; decide)
+
+def exFr : FuncRec := ⟨"f", default, 0, none, none⟩
+/-- `f(a)` called with one argument from scope 1, default evaluator = the real `eval` -/
+def exRun1 : Except Sig Nat × St := runM (buildFrame (fun d => eval 50 1 d) exFr [some exParamA] [.bool true]) exSt
+/-- `f(a, b=5)` called with one argument: the default IS evaluated, by the real `eval` -/
+def exRun2 : Except Sig Nat × St := runM (buildFrame (fun d => eval 50 1 d) exFr [some exParamA, some exParamB5] [.bool true]) exSt
+
+example : exRun1.1 = .ok 2 := rfl
+
+/-- no hypothesis on the evaluator: the caller's scope 1 and the global scope 0 are untouched, the frame hangs under
+    the declaration scope 0 -/
+example : exRun1.2.scope 0 = exSt.scope 0 ∧ exRun1.2.scope 1 = exSt.scope 1 ∧ (exRun1.2.scope 2).parent = some 0 := by
+  have hpl : PlainParams [some exParamA] := fun p nm hp hn => exParams_plain p nm (by simp at hp ⊢; exact Or.inl hp) hn
+  have hnp : NoPreset [some exParamA] := by intro p hp; simp at hp; subst hp; rfl
+  have h0 := call_frames_noDefaults (fun d => eval 50 1 d) exFr [some exParamA] [.bool true] exSt exRun1.2 exRun1.1 0 (by decide) hpl hnp rfl
+  have h1 := call_frames_noDefaults (fun d => eval 50 1 d) exFr [some exParamA] [.bool true] exSt exRun1.2 exRun1.1 1 (by decide) hpl hnp rfl
+  exact ⟨h0.1, h1.1, ((h0.2 2 0 rfl).2).1⟩
+
+/-- the real evaluator on the default expression `5`: a number literal changes no state -/
+theorem eval_five (s : St) : ∃ v, runM (eval 50 1 (nd "number" [53] [])) s = (.ok v, s) := by
+  rw [show (50 : Nat) = 49 + 1 from rfl]
+  unfold eval
+  simp [nd, Ecal.Parse.Node.name, tokOf, Ecal.Parse.Node.tok, numberOf]
+  exact ⟨_, rfl⟩
+
+/-- `hev` discharged for the real evaluator and the default `5` -/
+theorem exParams_hev (I : St → Prop) : DefaultPreserves (fun d => eval 50 1 d) [some exParamA, some exParamB5] I := by
+  intro p d hp hd s r s1 hI hr
+  simp only [List.mem_cons, Option.some.injEq, List.mem_nil_iff, or_false] at hp
+  rcases hp with e | e <;> subst e
+  · simp [exParamA, nd, Ecal.Parse.Node.children] at hd
+  · have hd' : d = nd "number" [53] [] := by
+      simp [exParamB5, nd, Ecal.Parse.Node.children] at hd; exact hd.symm
+    subst hd'
+    obtain ⟨v, hv⟩ := eval_five s
+    rw [hv] at hr
+    injection hr with _ h2; rw [← h2]; exact hI
+
+example : exRun2.2.scope 1 = exSt.scope 1 ∧ exRun2.2.scope 0 = exSt.scope 0 :=
+  ⟨call_does_not_write_enclosing_frames (fun d => eval 50 1 d) exFr _ [.bool true] exSt exRun2.2 exRun2.1 1 (by decide) exParams_plain
+      (exParams_hev _) rfl,
+   call_does_not_write_enclosing_frames (fun d => eval 50 1 d) exFr _ [.bool true] exSt exRun2.2 exRun2.1 0 (by decide) exParams_plain
+      (exParams_hev _) rfl⟩
 
 /-- non-vacuity: a method frame (`this` bound, no parameters) built over the example state -/
 example : ∃ fvs st', runM (buildFrame (fun _ => pure Val.null) ⟨"m", default, 1, some (.map 0), none⟩ [] []) exSt = (.ok fvs, st') :=
@@ -450,7 +531,8 @@ example : TKey { maps := #[[(.str [107], .null)], [(.str superName, .list 1 1)],
     parameters are written after `this`, so such a parameter's value would replace it. -/
 theorem method_this (ev : Ecal.Parse.Node → M Val) (fr : FuncRec) (params : List (Option Ecal.Parse.Node)) (args : List Val)
     (st st' : St) (fvs obj : Nat) (hthis : fr.this = some (.map obj))
-    (hav : ParamsAvoid (bytesToString thisName) params) (hev : DefaultKeepsFrame ev st.scopes.size)
+    (hav : ParamsAvoid (bytesToString thisName) params)
+    (hev : DefaultPreserves ev params (NameInv st.scopes.size (bytesToString thisName) (.map obj)))
     (h : runM (buildFrame ev fr params args) st = (.ok fvs, st')) :
     st'.nearest fvs (bytesToString thisName) = some fvs ∧ st'.valueIn fvs (bytesToString thisName) = .map obj := by
   have := buildFrame_this ev fr params args st st' fvs (.map obj) hthis hav hev h
@@ -483,7 +565,8 @@ theorem init_once_with_args_and_supers (obj : Nat) (initSuper : List Val) (id : 
 
 theorem init_reads_super (ev : Ecal.Parse.Node → M Val) (fr : FuncRec) (params : List (Option Ecal.Parse.Node)) (args : List Val)
     (st st' : St) (fvs : Nat) (sl : Val) (hsuper : fr.super = some sl)
-    (hav : ParamsAvoid (bytesToString superName) params) (hev : DefaultKeepsFrame ev st.scopes.size)
+    (hav : ParamsAvoid (bytesToString superName) params)
+    (hev : DefaultPreserves ev params (NameInv st.scopes.size (bytesToString superName) sl))
     (h : runM (buildFrame ev fr params args) st = (.ok fvs, st')) :
     st'.nearest fvs (bytesToString superName) = some fvs ∧ st'.valueIn fvs (bytesToString superName) = sl := by
   have := buildFrame_super ev fr params args st st' fvs sl hsuper hav hev h
